@@ -59,6 +59,7 @@ struct Stats {
     thread_switches: u64,
     first_uses: u64,
     contended_first_uses: u64,
+    repeated_calls: u64,
     /// (op, outcome) of every default-decimal-API call, kept only on request (cross-build diff)
     keep_records: bool,
     records: Vec<(String, String)>,
@@ -174,6 +175,49 @@ fn first_use_key(op: &Op) -> String {
     }
 }
 
+/// Properties a "same call, different answer" observation violates, by call kind.
+fn repeat_props(op: &Op) -> Vec<&'static str> {
+    match op {
+        Op::WInt {
+            short: None,
+            ..
+        } => vec!["C03"],
+        Op::PInt {
+            ..
+        } => vec!["C04", "C11"],
+        Op::PFloat {
+            ..
+        } => vec!["C01", "C11"],
+        Op::WFloat {
+            short: None,
+            ..
+        } => vec!["C02"],
+        Op::WFloatR {
+            radix,
+            ..
+        } => vec![if radix.is_power_of_two() {
+            "C06"
+        } else {
+            "C07"
+        }],
+        Op::PFloatR {
+            ..
+        } => vec!["C05", "C11"],
+        Op::PNanCustom {
+            ..
+        }
+        | Op::WNanCustom {
+            ..
+        } => vec!["C15"],
+        Op::WFloatBreaks {
+            ..
+        } => vec!["C02"],
+        // short-buffer writes may legitimately panic or succeed; their record is "panic" or the bytes,
+        // deterministic per call, but they are not value claims of any property
+        _ => vec![],
+    }
+}
+
 fn account(stats: &mut Stats, op: &Op, res: &OpResult) {
     *stats.ops.entry(op.kind()).or_insert(0) += 1;
     if res.caught_panic {
@@ -256,6 +300,7 @@ fn run_gated(events: &[Event], keep_records: bool) -> Report {
     let mut found = Vec::new();
     let mut last_t: Option<usize> = None;
     let mut seen_keys: BTreeMap<String, usize> = BTreeMap::new();
+    let mut first_answer: BTreeMap<String, (usize, String)> = BTreeMap::new();
     for (i, ev) in events.iter().enumerate() {
         match ev {
             Event::Kill {
@@ -315,6 +360,32 @@ fn run_gated(events: &[Event], keep_records: bool) -> Report {
                 };
                 fnv(&mut stats.sched_hash, &[*t as u8]);
                 account(&mut stats, op, &res);
+                // history oracle: the same call, whenever and wherever it is made in a run, has one answer
+                let enc = op.encode();
+                match first_answer.get(&enc) {
+                    None => {
+                        first_answer.insert(enc.clone(), (i, res.record.clone()));
+                    },
+                    Some((j, rec)) => {
+                        stats.repeated_calls += 1;
+                        if *rec != res.record {
+                            for prop in repeat_props(op) {
+                                found.push(Found {
+                                    index: i,
+                                    thread: *t,
+                                    prop: prop.to_string(),
+                                    msg: format!(
+                                        "the same call returned \"{}\" at event {} and \"{}\" at event {} of this run",
+                                        rec, j, res.record, i
+                                    ),
+                                    op: op.describe(),
+                                    tag: String::new(),
+                                    enc: enc.clone(),
+                                });
+                            }
+                        }
+                    },
+                }
                 for v in res.violations {
                     found.push(Found {
                         index: i,
@@ -447,7 +518,7 @@ fn emit(mode: &str, seed: u64, focus: &str, rep: &Report, trace: Option<&[String
         None => "null".to_string(),
     };
     println!(
-        "{{\"mode\":{},\"variant\":{},\"seed\":{},\"focus\":{},\"events\":{},\"threads\":{},\"ops\":{},\"faults\":{},\"thread_switches\":{},\"first_uses\":{},\"contended_first_uses\":{},\"sched_hash\":\"{:016x}\",\"h_parse_and_int\":\"{:016x}\",\"h_float_write\":\"{:016x}\",\"violations\":[{}],\"records\":{},\"trace\":{}}}",
+        "{{\"mode\":{},\"variant\":{},\"seed\":{},\"focus\":{},\"events\":{},\"threads\":{},\"ops\":{},\"faults\":{},\"thread_switches\":{},\"first_uses\":{},\"contended_first_uses\":{},\"repeated_calls\":{},\"sched_hash\":\"{:016x}\",\"h_parse_and_int\":\"{:016x}\",\"h_float_write\":\"{:016x}\",\"violations\":[{}],\"records\":{},\"trace\":{}}}",
         jstr(mode),
         jstr(variant()),
         seed,
@@ -459,6 +530,7 @@ fn emit(mode: &str, seed: u64, focus: &str, rep: &Report, trace: Option<&[String
         rep.stats.thread_switches,
         rep.stats.first_uses,
         rep.stats.contended_first_uses,
+        rep.stats.repeated_calls,
         rep.stats.sched_hash,
         rep.stats.h_parse_and_int,
         rep.stats.h_float_write,
